@@ -128,3 +128,31 @@ Theorem C04_contour_edges_are_subsegments :
   exists i o x, In i evs /\ in_result_filter st i = true /\ e_other (getE st i) = Some o /\
     pt_eq x p = true /\ pt_eq x (e_point (getE st i)) = true /\ q = e_point (getE st o).
 Proof. exact contour_edges_are_subsegments. Qed.
+
+(** ** the clauses of C04 as a VERIFIED per-run certificate on exact runs, evaluated on the
+    implementation's own result: every ring closed, with at least three distinct vertices, no
+    repeated consecutive vertex, non-zero area and (rings assembled by the operation) positive
+    orientation; every edge on ONE input edge; every vertex an end point of an input edge or a
+    common point of two input edges that the exact kernel reports *)
+From GB Require Import Cert04.
+Theorem C04_certificate_sound :
+  forall (assembled : bool) (E : list edge) (R : list (list (list qp))),
+  cert04 assembled E R = true ->
+  forall poly r, In poly R -> In r poly ->
+  exists p rest, open_ring r = Some (p :: rest) /\
+    (3 <= count_distinct nil (p :: rest))%nat /\ ~ ring_area2 (p :: rest) == 0 /\
+    (assembled = true -> 0 < ring_area2 (p :: rest)) /\
+    (forall a b, In (a, b) (cyc_pairs p p rest) -> peqb a b = false /\ lies_on_input E a b) /\
+    (forall v, In v (p :: rest) -> from_inputs E v).
+Proof. exact cert04_sound. Qed.
+
+Theorem C04_certificate_unfold :
+  forall (E : list edge) (a b v : qp),
+  (lies_on_input E a b <->
+     exists ax ay bx by_ se, In (ax, ay, (bx, by_), se) E /\
+       SplitCover.on_seg ax ay bx by_ (fst a) (snd a) /\ SplitCover.on_seg ax ay bx by_ (fst b) (snd b)) /\
+  (from_inputs E v <->
+     (exists ax ay bx by_ se, In (ax, ay, (bx, by_), se) E /\ (qeqp (fst v) (snd v) ax ay \/ qeqp (fst v) (snd v) bx by_)) \/
+     (exists ax ay bx by_ se cx cy dx dy sf, In (ax, ay, (bx, by_), se) E /\ In (cx, cy, (dx, dy), sf) E /\
+        on_both ax ay bx by_ cx cy dx dy (fst v) (snd v))).
+Proof. exact (fun _ _ _ _ => conj (conj (fun H => H) (fun H => H)) (conj (fun H => H) (fun H => H))). Qed.
